@@ -80,7 +80,7 @@ func parseFrameHeaders(b64 string) map[string]string {
 
 // headerMaps: every map with 0..3 entries over non-reserved names and boundary values.
 func headerMaps(full bool) []map[string]string {
-	names := []string{"k", "x-y", "é", "A_b"}
+	names := []string{"k", "x-y", "é", "A_b", "_tenant"} // only _cid and _opid are reserved; other underscore names are user headers
 	values := []string{"", "v", "日本", "a b=c"}
 	out := []map[string]string{{}}
 	for i, n := range names {
